@@ -1,5 +1,6 @@
 import PynnVerif.Model.Heap
 import PynnVerif.Driver.Util
+import PynnVerif.Driver.Descent
 /-!
 # Line-protocol driver over the executable model
 
@@ -20,7 +21,7 @@ structure St where
   row : Row F := #[]
 
 /-- stateless area handlers (first one that answers wins) -/
-def handlers : List Handler := []
+def handlers : List Handler := [handleDescent]
 
 def step (st : St) (line : String) : St × String :=
   let toks := (line.trimAscii.toString.splitOn " ").filter (· ≠ "")
